@@ -79,7 +79,10 @@ KeyedLikeNames == Dict([k \in {"a", "c"} |-> IF k = "a" THEN PyInt ELSE PyStr])
 SkipLeaf == {PyInt, PyStr, Arr1d, TenPlain, PyBool, List(<<PyInt, PyStr>>), KeyedLikeNames,
              List(<<Dict([k \in {"b"} |-> PyInt]), PyStr>>), NpInt, NpBool, PyPath}
 Lvl3 == {Obj("Inner", m) : m \in Maps({PyInt, Arr1d}, {"a", "c"})}
-Lvl2 == {Obj("Inner", m) : m \in [{"a", "b"} -> {PyStr}] \cup {[n \in {"a", "c"} |-> IF n = "a" THEN PyInt ELSE o] : o \in Lvl3}}
+\* (a nested object may carry attributes that make it LOOK like an array - dtype, shape - and is still an object
+\* whose attributes the skip lists reach)
+Lvl2 == {Obj("Inner", m) : m \in [{"a", "b"} -> {PyStr}] \cup {[n \in {"a", "c"} |-> IF n = "a" THEN PyInt ELSE o] : o \in Lvl3}
+                                 \cup {[n \in {"a", "dtype", "shape"} |-> IF n = "a" THEN PyInt ELSE IF n = "dtype" THEN PyStr ELSE Tuple(<<PyInt, PyInt>>)]}}
 SkipRoots == {Obj("Root", [n \in {"a", "b", "c"} |-> IF n = "a" THEN x ELSE IF n = "b" THEN y ELSE o])
                  : x \in SkipLeaf, y \in {PyStr, TenPlain, Arr1d, Dict([k \in {"b", "zz"} |-> PyInt])}, o \in Lvl2}
 SkipNames == SUBSET {"a", "b", "c", "zz"}
